@@ -200,6 +200,7 @@ pub struct Stats {
     pub p_trunc: u64,
     pub p_sigpipe: u64,
     pub p_poisoned: u64,
+    pub p_hook_points: u64,
     pub p_clock_jumps: u64,
     pub p_futex_wait: u64,
     pub p_stale: u64,
@@ -1138,6 +1139,18 @@ pub unsafe extern "C" fn pthread_join(t: libc::pthread_t, retval: *mut *mut libc
         }
     }
     real(t, retval)
+}
+
+/// Scheduling point offered by the guarded hook in /repo (cargo feature `verif-hooks`): called
+/// before every reference-count operation of the stand-in `Arc`, so that interleavings at the
+/// granularity of those atomic operations can be explored (1 = clone, 2 = drop, 3 = read).
+#[no_mangle]
+pub extern "C" fn ipcsim_sched_point(kind: u32) {
+    if enter(false) {
+        g().stats.p_hook_points += 1;
+        trace(S_YIELD, 2, kind as i64, 0);
+        yield_point();
+    }
 }
 
 // ------------------------------------------------------------------ futex / time / random
